@@ -433,6 +433,11 @@ class ExprMixin:
                     if b > 0:       # SMT div/mod are floor-like for a positive divisor (Python semantics)
                         return mk_int(ta / tb if op == "FloorDiv" else ta % tb)
                 raise Unsupported("floor division by a symbolic or negative divisor")
+            if op == "Div" and isinstance(b, int) and not isinstance(b, bool) and b == 1:
+                # true division by 1 yields float(a); int(float(a)) == a exactly while |a| < 2**53 (machine arithmetic treated as
+                # mathematical: obligation below)
+                self.oblige(st, "safe.float_exact", z3.And(ta < 2 ** 53, ta > -(2 ** 53)), label="int -> float -> int is exact below 2**53")
+                return mk_int(ta)
             if op == "BitAnd" and isinstance(b, int) and b >= 0 and isinstance(a, Sym):
                 return self.bitand_const(a, b, st)
             if op == "BitOr":
@@ -532,7 +537,29 @@ class ExprMixin:
         t = z3.Concat(ta, tb)
         if tag == "chunk":
             st.fact(Lemmas.list_concat(t, [ta, tb]))
+        self.rebase_seq_inst(st, [ta, tb])
+        self.nth_facts_concat(st, t, [ta, tb], tag)
         return st.alloc(ListV(tag=tag, t=t))
+
+    def nth_facts_concat(self, st, t, parts, tag):
+        """element-wise reading of a concatenation of row lists (instantiable; spares the solvers the sequence reasoning)"""
+        if tag != "fmtstr":
+            return
+        st.fact(z3.Length(t) == z3.Sum(*[z3.Length(p) for p in parts]) if len(parts) > 1 else z3.Length(t) == z3.Length(parts[0]))
+        prefix = z3.IntVal(0)
+        for p in parts:
+            st.add_inst(lambda i, p=p, prefix=prefix, t=t: z3.Implies(z3.And(i >= prefix, i < prefix + z3.Length(p)), t[i] == p[z3.simplify(i - prefix)]))
+            prefix = z3.simplify(prefix + z3.Length(p))
+
+    def rebase_seq_inst(self, st, parts):
+        """element facts of a mapped sequence that becomes part of a concatenation: element i of the whole is element
+        i - |prefix| of the part, so the part's facts are also instantiated at (every known index) - |prefix|"""
+        prefix = z3.IntVal(0)
+        for p in parts:
+            f = st.seq_inst.get(p.get_id())
+            if f is not None and not z3.is_int_value(z3.simplify(prefix)) or (f is not None and z3.simplify(prefix).as_long() != 0):
+                st.add_inst(lambda i, f=f, prefix=prefix: f(z3.simplify(i - prefix)))
+            prefix = prefix + z3.Length(p)
 
     def mutate_check(self, lv, st, what):
         if lv.borrowed:
@@ -621,6 +648,8 @@ class ExprMixin:
         t = z3.Concat(ta, tb)
         if tag == "chunk":
             st.fact(Lemmas.list_concat(t, [ta, tb]))
+        self.rebase_seq_inst(st, [ta, tb])
+        self.nth_facts_concat(st, t, [ta, tb], tag)
         lv.items, lv.tag, lv.t, lv.origin = None, tag, t, None
 
     def list_len(self, lv, st):
@@ -673,6 +702,8 @@ class ExprMixin:
         st.fact(z3.Length(r) == z3.If(b > a, b - a, 0))
         if tag == "chunk":
             st.fact(Lemmas.list_basic(r))
+        if tag == "fmtstr":
+            st.add_inst(lambda i, r=r, t=t, a=a: z3.Implies(z3.And(i >= 0, i < z3.Length(r)), r[i] == t[z3.simplify(a + i)]))
         return st.alloc(out)
 
     # ------------------------------------------------------------------ subscripts
